@@ -33,9 +33,11 @@ def main(tier):
             configs.append({"seed": run.seed * 1000 + k, "threads": n, "rounds": 5, "calls_per_thread": 10, "cffi": 3 if k < 6 else 0, "inject_p": 0.3,
                             "cffi_burst": 1 if k in (2, 3, 5) else 0})
     else:
-        for s in range(5):
-            for k, n in enumerate([2, 4, 8, 16] * 6):
-                configs.append({"seed": run.seed * 100000 + s * 100 + k, "threads": n, "rounds": 12, "calls_per_thread": 30, "cffi": 6, "inject_p": 0.3,
+        # sized so that the tier ends within ~15 minutes on 16 cores (the first sizing - 120 configurations of 12 rounds
+        # x 30 calls per thread under LINE monitoring - did not finish within an hour)
+        for s in range(2):
+            for k, n in enumerate([2, 4, 8, 16] * 3):
+                configs.append({"seed": run.seed * 100000 + s * 100 + k, "threads": n, "rounds": 8, "calls_per_thread": 20, "cffi": 6, "inject_p": 0.3,
                                 "cffi_burst": 2 if k % 3 == 0 else 0})
     try:
         pending = list(enumerate(configs))
